@@ -278,7 +278,16 @@ func GenDataset(r *Rng, w Window, lookback int64, maxSeries int, hostile, withHi
 		if r.P(0.08) {
 			ls["Z"] = Pick(r, labelValues) // upper-case names sort before __name__
 		}
-		d.Series = append(d.Series, Series{Labels: ls, Samples: GenSamples(r, w, lookback, hostile)})
+		sm := GenSamples(r, w, lookback, hostile)
+		if hostile && r.P(0.12) {
+			// a series of negative zeros: sums and averages over it are -0, not +0
+			for k := range sm {
+				if sm[k].V == sm[k].V {
+					sm[k].V = math.Copysign(0, -1)
+				}
+			}
+		}
+		d.Series = append(d.Series, Series{Labels: ls, Samples: sm})
 	}
 	if n > 0 && r.P(0.1) {
 		AddTwin(r, &d, w, lookback, hostile, r.P(0.7))
@@ -891,6 +900,14 @@ func genQuery(r *Rng, g *GenCfg) string {
 		}
 		return f
 	case "agg":
+		if r.P(0.05) {
+			// the sign of a zero result is only visible through a division; grouping by every label
+			// keeps a series of negative zeros in a group of its own
+			if r.P(0.6) {
+				return "1 / " + Pick(r, []string{"sum", "sum", "avg", "avg", "min", "max"}) + " by (a, b, c, Z) (" + q.selector() + ")"
+			}
+			return "1 / " + q.agg(d)
+		}
 		return q.agg(d)
 	case "binary":
 		if r.P(0.7) {
